@@ -681,6 +681,9 @@ def sample_space(rng, space):
       out[pc.name] = rng.randint(int(pc.bounds[0]), int(pc.bounds[1]))
     else:
       out[pc.name] = rng.choice(list(pc.feasible_values))
+      if t == vz.ParameterType.DISCRETE and rng.random() < 0.5:
+        # the same point as designers and converters deliver it: DISCRETE values are floats on the wire (1 -> 1.0)
+        out[pc.name] = float(out[pc.name])
     for value, sub in pc.subspaces():
       if float(value) == float(out[pc.name]) if not isinstance(value, str) else value == out[pc.name]:
         out.update(sample_space(rng, sub))
